@@ -11,7 +11,7 @@ import re
 
 HOSTILE = "<b>&\"'"
 STR_TAGS = {"": "", "a": "a", "p": "p", "b": "b", "c": "c", "h": HOSTILE, "h2": "]]>&amp;<!--", "sp": " ", "u": "é", "u0": "u",
-            "q": "it's", "pp": "a|b", "qq": "'"}
+            "q": "it's", "pp": "a|b", "qq": "'", "dg": "0123456789"}
 TAGNAMES = ["div", "span", "p", "ul", "li", "em", "b", "i", "td", "tr"]
 
 
@@ -80,7 +80,7 @@ EXC_CLASSES = {
     "ValueError": ValueError, "UnicodeError": UnicodeError,
     "ZeroDivisionError": ZeroDivisionError, "RuntimeError": RuntimeError,
     "KeyboardInterrupt": KeyboardInterrupt, "SystemExit": SystemExit,
-    "RecursionError": RecursionError, "Custom2": Custom2, "CustomStr": CustomStr,
+    "RecursionError": RecursionError, "Custom2": Custom2, "CustomStr": CustomStr, "ModuleNotFoundError": ModuleNotFoundError,
     "Exception": Exception,
 }
 
@@ -237,6 +237,8 @@ def expr_text(e, ctx=None):
         return "not: " + expr_text(e["e"])
     if x == "exists":
         return "exists: " + expr_text(e["e"])
+    if x == "imp":
+        return "import: string.digits" if e["ok"] else "import: nosuchmod.attr"
     if x == "dflt":
         return "default"
     if x == "attrs":
@@ -249,6 +251,7 @@ def expr_text(e, ctx=None):
                 "ltcond": "(%s if 1 < 2 else None)", "ampand": "(1 & 3 and %s)",
                 "nlparen": "(%s\n       )", "dsp": "(%s  if  True  else  None)",
                 # parameters / comprehension variables named like template variables: local to the expression
+                "pyprefix": "python: %s", "pyprefix2": "python:%s",
                 "compx": "[x for x in (%s,)][0]", "genx": "list(x for x in (%s,))[0]", "lamdef": "(lambda y=%s: y)()",
                 "nestlam": "(lambda x: (lambda y, x=x: x)(x))(%s)", "lamkw": "(lambda *x, **y: x[0])(%s)"}[e["w"]] % inner
     if x == "attr":
@@ -418,7 +421,8 @@ def concretize(p, perm=0, style=None):
             if it["sub"]["m"] != "none":
                 sb = it["sub"]
                 stm.append((sb["m"], pre + sb["m"],
-                            [("structure " if sb["s"] else ""), ex((i, "sub", 0), sb["e"])]))
+                            # the keyword and the expression-type spelling are the same opt-out (odd permutations use the latter)
+                            [(("structure " if perm % 2 == 0 else "structure: ") if sb["s"] else ""), ex((i, "sub", 0), sb["e"])]))
             if it["omit"]["m"] == "yes":
                 stm.append(("omit-tag", pre + "omit-tag", [""]))
             elif it["omit"]["m"] == "expr":
